@@ -271,3 +271,171 @@ def may_be_undef(t, facts):
     if not m.ok or n == 0:
         return None
     return False
+
+
+class Interp(object):
+    """Evaluate terms on *given* values of a few operand terms (a decision function over a finite input domain):
+    arithmetic (+ - * % //), comparisons, Boolean connectives, conditionals, tuples and `.get` / subscript on
+    module-level dict tables (folded by constfold).  Returns UNKNOWN for anything else."""
+
+    UNKNOWN = object()
+
+    def __init__(self, ctx=None):
+        self.ctx = ctx
+
+    def val(self, t, env):
+        U = self.UNKNOWN
+        if t.id in env:
+            return env[t.id]
+        op = t.op
+        if op == "const":
+            return t.a[0]
+        if op in ("tuple", "list", "set"):
+            xs = [self.val(z, env) for z in t.a]
+            return U if any(x is U for x in xs) else tuple(xs)
+        if op == "bin":
+            a, b = self.val(t.a[1], env), self.val(t.a[2], env)
+            if a is U or b is U:
+                return U
+            try:
+                o = t.a[0]
+                if o == "+":
+                    return a + b
+                if o == "-":
+                    return a - b
+                if o == "*":
+                    return a * b
+                if o == "%":
+                    return a % b
+                if o == "//":
+                    return a // b
+                if o == "/":
+                    return a / b
+            except Exception:
+                return U
+            return U
+        if op == "un":
+            a = self.val(t.a[1], env)
+            if a is U:
+                return U
+            if t.a[0] == "not":
+                return not a
+            if t.a[0] == "-":
+                try:
+                    return -a
+                except Exception:
+                    return U
+            return U
+        if op == "cmp":
+            a, b = self.val(t.a[1], env), self.val(t.a[2], env)
+            if a is U or b is U:
+                return U
+            o = t.a[0]
+            try:
+                if o == "==":
+                    return a == b
+                if o == "!=":
+                    return a != b
+                if o == "is":
+                    return a is b or (a is None and b is None)
+                if o == "isnot":
+                    return not (a is b or (a is None and b is None))
+                if o == "in":
+                    return a in b
+                if o == "notin":
+                    return a not in b
+                if o == "<":
+                    return a < b
+                if o == "<=":
+                    return a <= b
+            except Exception:
+                return U
+            return U
+        if op == "bool":
+            vals = []
+            for x in t.a[1:]:
+                v = self.val(x, env)
+                if t.a[0] == "and":
+                    if v is not U and not v:
+                        return v
+                else:
+                    if v is not U and v:
+                        return v
+                vals.append(v)
+            if any(v is U for v in vals):
+                return U
+            return vals[-1]
+        if op == "ite":
+            c = self.val(t.a[0], env)
+            if c is U:
+                return U
+            return self.val(t.a[1] if c else t.a[2], env)
+        if op == "call":
+            from .rules.common import call_name
+
+            n = call_name(t)
+            if n == ".get" and len(t.a[1]) in (2, 3):
+                tab = self._table(t.a[1][0])
+                k = self.val(t.a[1][1], env)
+                if tab is U or k is U:
+                    return U
+                d = self.val(t.a[1][2], env) if len(t.a[1]) == 3 else None
+                try:
+                    return tab.get(k, d)
+                except Exception:
+                    return U
+            if n in ("builtins.float", "builtins.int", "builtins.bool", "builtins.abs") and len(t.a[1]) == 1:
+                a = self.val(t.a[1][0], env)
+                if a is U:
+                    return U
+                try:
+                    return {"builtins.float": float, "builtins.int": int, "builtins.bool": bool, "builtins.abs": abs}[n](a)
+                except Exception:
+                    return U
+            return U
+        if op == "sub":
+            tab = self._table(t.a[0])
+            if tab is not U:
+                k = self.val(t.a[1], env)
+                if k is U:
+                    return U
+                try:
+                    return tab[k]
+                except Exception:
+                    return U
+            return U
+        return U
+
+    def _table(self, t):
+        if t.op == "dict":
+            try:
+                return dict((self.val(kv.a[0], {}), self.val(kv.a[1], {})) for kv in t.a)
+            except Exception:
+                return self.UNKNOWN
+        if t.op == "glob" and self.ctx is not None:
+            try:
+                from .constfold import fold
+
+                v = fold(self.ctx.S.glob_terms.get(t.a[0]), self.ctx)
+                return v if isinstance(v, dict) else self.UNKNOWN
+            except Exception:
+                return self.UNKNOWN
+        return self.UNKNOWN
+
+
+def decide(returns_with_pc, env, interp):
+    """value of the first return whose path condition holds under ``env``: (value,) | None (undecided)"""
+    U = interp.UNKNOWN
+    for term, conds in returns_with_pc:
+        ok = True
+        for c, pol in conds:
+            v = interp.val(c, env)
+            if v is U:
+                return None
+            if bool(v) != bool(pol):
+                ok = False
+                break
+        if ok:
+            v = interp.val(term, env)
+            return None if v is U else (v,)
+    return None
